@@ -5,6 +5,8 @@ import PyamgV.Proofs.BfsCk
 import PyamgV.Proofs.SocCk
 import PyamgV.Model.C17Ck
 import PyamgV.Proofs.C17Safe3
+import PyamgV.Proofs.C17Safe4
+import PyamgV.Proofs.C17Safe5
 /-! Driver ops for property C17 (line protocol). Op names are prefixed `c17_`.
 Every op runs the *checked* (`Ck`) model of one kernel on exact rationals and prints the value
 (`.val`, compared with the real kernel) followed by `;ok` / `;fault` (the flag the safety theorems
@@ -23,6 +25,16 @@ def socOps : SocCk.Ops Rat := ⟨absR, maxR, fun a b => decide (b ≤ a), (· * 
 /-- `classical_strength_of_connection_min` is the same loop with `norm a = -a` and the running maximum started at 0 -/
 def socMinOps : SocCk.Ops Rat := ⟨fun a => -a, maxR, fun a b => decide (b ≤ a), (· * ·), 0⟩
 def symOps : C17.SymOps Rat := ⟨fun a => a * a, fun a b => decide (b ≤ a)⟩
+
+/-- `std::numeric_limits<double>::max()` = 2^1024 - 2^971 -/
+def bigR : Rat := (((2 ^ 1024 - 2 ^ 971 : Nat) : Int) : Rat)
+def minR (a b : Rat) : Rat := if b < a then b else a
+def fOps : C17.FOps Rat := ⟨1, 0, bigR, minR, fun a b => decide (b ≤ a), (· * ·), fun q => q == 0⟩
+def pOps : C17.POps Rat := ⟨1, fun a => -a, 0, fun v m => decide (m < absR v), absR, -1⟩
+/-- distances with `none` = +infinity -/
+def bOps : C17.BOps (Option Rat) :=
+  ⟨fun a b => match a, b with | some x, some y => some (x + y) | _, _ => none,
+   fun a b => match a, b with | some x, some y => decide (x < y) | some _, none => true | none, _ => false⟩
 
 def mkG (n ap aj ax : String) : Ck.Csr Rat := ⟨nat n, parseInts ap, parseInts aj, parseRats ax⟩
 def flag (b : Bool) : String := if b then ";ok" else ";fault"
@@ -70,6 +82,10 @@ def handle : List String → Option String
     let r := C17.naiveAgg (nat n) (parseInts ap) (parseInts aj) (parseInts x) (parseInts y)
     let k := (r.val.2.2 - 1).toNat
     some <| showInts r.val.1 ++ ";" ++ showInts (r.val.2.1.extract 0 k) ++ ";" ++ toString k ++ flag r.ok
+  | ["c17_stdagg", n, ap, aj, x, y] =>
+    let r := C17.stdAgg (nat n) (parseInts ap) (parseInts aj) (parseInts x) (parseInts y)
+    let k := r.val.2.2.toNat
+    some <| showInts r.val.1 ++ ";" ++ showInts (r.val.2.1.extract 0 k) ++ ";" ++ toString r.val.2.2 ++ flag r.ok
   | ["c17_bfs", n, ap, aj, seed, order, level] =>
     let G : BfsCk.Csr := ⟨nat n, parseInts ap, parseInts aj⟩
     let r := BfsCk.bfs G (int seed) (parseInts order) (parseInts level) (G.n + 1)
@@ -89,6 +105,20 @@ def handle : List String → Option String
     let r := C17.symSoc kOps symOps (parseRat th) (mkG n ap aj ax) (parseInts sp) (parseInts sj) (parseRats sx)
     let k := r.val.2.2.2.toNat
     some <| showInts r.val.1 ++ ";" ++ showInts (r.val.2.1.extract 0 k) ++ ";" ++ showRats (r.val.2.2.1.extract 0 k) ++ flag r.ok
+  | ["c17_distf", eps, n, ap, aj, ax] => some <| outR (C17.distFilter fOps (parseRat eps) (mkG n ap aj ax))
+  | ["c17_adistf", eps, n, ap, aj, ax] => some <| outR (C17.absDistFilter fOps (parseRat eps) (mkG n ap aj ax))
+  | ["c17_minblocks", nb, bs, sx, tx] => some <| outR (C17.minBlocks fOps (nat nb) (nat bs) (parseRats sx) (parseRats tx))
+  | ["c17_jacne", om, n, ap, aj, ax, delta, x, temp, s0, s1, s2] =>
+    let G := mkG n ap aj ax
+    some <| outXT (C17.jacobiNe kOps (parseRats om) G (parseRats delta) (int s0) (int s1) (int s2) (G.n + 1) (parseRats x) (parseRats temp)) true
+  | ["c17_onepoint", pp, pj, px, n, cp, cj, cx, split] =>
+    let r := C17.onePoint pOps (parseInts pp) (parseInts pj) (parseRats px) (mkG n cp cj cx) (parseInts split)
+    let k := r.val.2.2.2.toNat
+    some <| showInts r.val.1 ++ ";" ++ showInts (r.val.2.1.extract 0 k) ++ ";" ++ showRats (r.val.2.2.1.extract 0 k) ++ flag r.ok
+  | ["c17_bf", n, ap, aj, ax, d, m, p] =>
+    let G : Ck.Csr (Option Rat) := ⟨nat n, parseInts ap, parseInts aj, (parseRats ax).map some⟩
+    let r := C17.bellmanFord bOps G (G.n + 2) (pure (parseORats d, parseInts m, parseInts p, false))
+    some <| (if r.val.2.2.2 then showORats r.val.1 ++ ";" ++ showInts r.val.2.1 ++ ";" ++ showInts r.val.2.2.1 else "nonterm") ++ flag r.ok
   | ["c17_mis", n, ap, aj, act, c, f, x] =>
     let G : Safe.Csr := ⟨nat n, parseNats ap, parseNats aj⟩
     let r := Safe.misSerial G (int act) (int c) (int f) ⟨parseInts x, true⟩
